@@ -516,9 +516,18 @@ func c11Build(s *simcore.Source) c11Scenario {
 		if epAuth == "" && s.Draw(3, "twin-endpoint-credentials") == 2 {
 			// two mechanisms on one introspection endpoint which authenticate there as different clients (RFC 7662 lets
 			// the server answer per caller): the rules use one each
+			// (as api key of the endpoint's auth strategy, or as a plain endpoint header spelled the way yaml authors do)
+			viaHeader := s.Draw(2, "credentials-as-plain-header") == 1
 			one := func(id, key string) string {
+				cred := "          auth:\n            type: api_key\n            config:\n              in: header\n              name: X-Api-Key\n              value: " + key + "\n" + hy
+				if viaHeader {
+					cred = "          headers:\n            x-api-key: " + key + "\n"
+					if len(hkeys) > 0 {
+						cred += yamlMap("            ", hkeys, c11StaticHeaderPool)
+					}
+				}
 				return "    - id: " + id + "\n      type: oauth2_introspection\n      config:\n        introspection_endpoint:\n          url: http://idp/introspect\n" +
-					"          auth:\n            type: api_key\n            config:\n              in: header\n              name: X-Api-Key\n              value: " + key + "\n" + hy +
+					cred +
 					"        assertions:\n          issuers: [ \"iss1\" ]\n        subject:\n          id: sub\n          attributes: \"@this\"\n        cache_ttl: 5m\n"
 			}
 			sc.mech = "mechanisms:\n  authenticators:\n" + one("mut", "key-1") + one("mut2", "key-2") +
